@@ -83,28 +83,8 @@ def run(ck, facts, tier):
         else:
             ck.violation(R, "Stack::push:compares-with-overflow_depth", b.where(), "the depth must be compared with self.overflow_depth")
 
-    R = "C09.FIXPOINT"
-    ck.rule(R, "K3: solve_new_subgoal returns only through the false edge of read_and_reset_cycle_flag or the true edge of "
-               "reached_fixed_point, and rolls the search graph back before iterating again; reached_fixed_point = (old == new) || new.is_ambig()")
-    b = need_body(ck, facts, R, "chalk_recursive::fixed_point::RecursiveContext::solve_new_subgoal")
-    if b:
-        cfg = b.cfg
-        exits = cfg.bool_edges(trace_is_call("read_and_reset_cycle_flag"), False) + cfg.bool_edges(trace_is_call("reached_fixed_point"), True)
-        rets = cfg.return_blocks()
-        ok = len(exits) == 2 and all(cfg.must_pass_edges(r, exits) for r in rets)
-        if ok:
-            ck.ok(R, "solve_new_subgoal:two-exits")
-        else:
-            ck.violation(R, "solve_new_subgoal:two-exits", b.where(), "the iteration loop must be left only when no cycle was flagged or a fixed point was reached")
-        # back edge passes rollback_to
-        rb = cfg.call_blocks("SearchGraph::rollback_to")
-        it = cfg.call_blocks("solve_iteration")
-        again = cfg.bool_edges(trace_is_call("reached_fixed_point"), False)
-        ok2 = bool(rb) and bool(it) and bool(again) and all(it[0] not in cfg.reachable(e[1], (), False, stop=set(rb)) - set(rb) for e in again)
-        if ok2:
-            ck.ok(R, "solve_new_subgoal:re-iteration-rolls-back")
-        else:
-            ck.violation(R, "solve_new_subgoal:re-iteration-rolls-back", b.where(), "each new iteration must start from a search graph rolled back to dfn+1")
+    from shared import fixedpoint
+    fixedpoint.loop_exits(ck, facts, "C09.FIXPOINT")
     from shared import fixedpoint
     fixedpoint.table(ck, facts, "C09.FIXED-POINT-TABLE", which=("diverge",))
 
